@@ -11,6 +11,14 @@ import BMV.Arch
 namespace BMV
 open BMV.Bits
 
+/-- the registers of one pipelined opcode: `<op>_<tag>_state` (put = false / get = true) and the
+    latched operands `<op>_<tag>_input_a`, `_input_b` -/
+structure Pipe where
+  st : Bool := false
+  a : Nat := 0
+  b : Nat := 0
+deriving DecidableEq, Repr, Inhabited
+
 structure RtlState where
   pc : Nat := 0
   regs : List Nat := []        -- _r0 …
@@ -18,7 +26,16 @@ structure RtlState where
   oVal : List Bool := []       -- o0_val …
   iRecv : List Bool := []      -- i0_recv …
   waitsm : Bool := false
+  pAdd : Pipe := {}            -- addp_<tag>_state / _input_a / _input_b
+  pMult : Pipe := {}
+  pDiv : Pipe := {}
 deriving DecidableEq, Repr, Inhabited
+
+def RtlState.getPipe (s : RtlState) (op : String) : Pipe :=
+  if op = "addp" then s.pAdd else if op = "multp" then s.pMult else s.pDiv
+
+def RtlState.setPipe (s : RtlState) (op : String) (p : Pipe) : RtlState :=
+  if op = "addp" then { s with pAdd := p } else if op = "multp" then { s with pMult := p } else { s with pDiv := p }
 
 structure PortsIn where
   inputs : List Nat := []
@@ -59,6 +76,16 @@ def unop (op : String) (rs x : Nat) : Nat :=
   else if op = "clr" then 0
   else x
 
+def pipeOps : List String := ["addp", "multp", "divp"]
+
+/-- the combinational helper module `<op>_<tag>` (`assign output_z = input_a OP input_b` at
+    register width) -/
+def pbinop (op : String) (rs x y : Nat) : Nat :=
+  let m := 2 ^ rs
+  if op = "addp" then (x + y) % m
+  else if op = "multp" then (x * y) % m
+  else x / y                               -- y = 0 is x in hardware; excluded by the hypotheses
+
 def binops : List String := ["add", "mult", "div", "cpy", "and", "or", "xor", "nand", "nor", "xnor", "not", "mod"]
 def unops : List String := ["inc", "dec", "clr"]
 
@@ -83,6 +110,12 @@ def mainBlock (a : Arch) (cur : Nat) (s : RtlState) (p : PortsIn) : RtlState :=
     else if op ∈ binops then
       let ks := part cur W (ob + a.r) a.r
       { next with regs := s.regs.set k (binop op a.rsize (s.regs.getD k 0) (s.regs.getD ks 0)) }
+    else if op ∈ pipeOps then
+      let ks := part cur W (ob + a.r) a.r
+      let pp := s.getPipe op
+      if pp.st = false then s.setPipe op { st := true, a := s.regs.getD k 0, b := s.regs.getD ks 0 }
+      else { (s.setPipe op { pp with st := false }) with
+             pc := pcNext, regs := s.regs.set k (pbinop op a.rsize pp.a pp.b) }
     else if op = "j" then { s with pc := part cur W ob a.o }
     else if op = "jz" then
       if s.regs.getD k 0 = 0 then { s with pc := part cur W (ob + a.r) a.o } else next
@@ -147,7 +180,10 @@ def cycle (a : Arch) (prog : List Bits) (s : RtlState) (p : PortsIn) : RtlState 
   With the flag set, the templates of `inc`, `dec`, `rset` and `jz` emit a register `case` arm only
   for the registers recorded under `destregs` for that opcode (bmreqs); a pruned arm of
   inc/dec/rset leaves the register file alone (the `_pc` update sits outside the inner case), a
-  pruned arm of `jz` does nothing at all. -/
+  pruned arm of `jz` does nothing at all.  The pipelined opcodes addp / multp / divp prune the outer
+  `case` (destination register) under OnlyDestRegs and the inner one (source register) under
+  OnlySrcRegs (`sourceregs`, given here under the key `<op>/src`); a pruned arm does nothing at all
+  (the processor stays on the instruction).  A flag that is off = every register recorded. -/
 
 def prunable : List String := ["inc", "dec", "rset", "jz"]
 
@@ -158,6 +194,7 @@ def mainBlockOpt (a : Arch) (used : String → List Nat) (cur : Nat) (s : RtlSta
     let k := part cur a.maxWord a.opBits a.r
     if op ∈ prunable ∧ k ∉ used op then
       (if op = "jz" then s else { s with pc := (s.pc + 1) % 2 ^ a.o })
+    else if op ∈ pipeOps ∧ (k ∉ used op ∨ part cur a.maxWord (a.opBits + a.r) a.r ∉ used (op ++ "/src")) then s
     else mainBlock a cur s p
 
 def cycleOpt (a : Arch) (used : String → List Nat) (prog : List Bits) (s : RtlState) (p : PortsIn) : RtlState :=
@@ -172,6 +209,11 @@ def cycleOpt (a : Arch) (used : String → List Nat) (prog : List Bits) (s : Rtl
 def destRegs (a : Arch) (prog : List Bits) (op : String) : List Nat :=
   prog.filterMap fun w =>
     if a.ops[getId (w.take a.opBits)]? = some op then some (getId ((w.drop a.opBits).take a.r)) else none
+
+/-- what `HLAssemblerNormalize` records as `sourceregs` of `op`: the second register operand -/
+def srcRegs (a : Arch) (prog : List Bits) (op : String) : List Nat :=
+  prog.filterMap fun w =>
+    if a.ops[getId (w.take a.opBits)]? = some op then some (getId (((w.drop a.opBits).drop a.r).take a.r)) else none
 
 end Rtl
 end BMV
